@@ -103,3 +103,51 @@ mut("c08_config_n_dependent", "aggregation/config.py",
     "        return length * unit_target_vector",
     "        return length * unit_target_vector * (1.0 + 1e-3 * (matrix.shape[1] % 2))",
     ["C08"])
+mut("c16_krum_neighbourhood", "aggregation/krum.py",
+    "n_closest = matrix.shape[0] - self.n_byzantine - 2",
+    "n_closest = matrix.shape[0] - self.n_byzantine - 1",
+    ["C16"])
+mut("c16_krum_counts_self", "aggregation/krum.py",
+    "smallest_distances_excluding_self = smallest_distances[:, 1:]",
+    "smallest_distances_excluding_self = smallest_distances[:, :-1]",
+    ["C16"])
+mut("c16_trim_total_not_per_side", "aggregation/trimmed_mean.py",
+    "trimmed = torch.narrow(sorted_matrix, dim=0, start=self.trim_number, length=n_remaining)",
+    "trimmed = torch.narrow(sorted_matrix, dim=0, start=self.trim_number // 2, length=n_remaining)",
+    ["C16"])
+mut("c16_trimmed_min_rows_off", "aggregation/trimmed_mean.py",
+    "        min_rows = 1 + 2 * self.trim_number",
+    "        min_rows = 2 * self.trim_number",
+    ["C16"])
+mut("c16_krum_largest", "aggregation/krum.py",
+    "_, selected_indices = torch.topk(scores, k=self.n_selected, largest=False)",
+    "_, selected_indices = torch.topk(scores, k=self.n_selected, largest=(matrix.shape[0] > 8))",
+    ["C16"])
+mut("c18_pcgrad_tests_original_row", "aggregation/pcgrad.py",
+    "                inner_product = inner_products[j] @ current_weights\n",
+    "                inner_product = inner_products[j] @ current_weights\n                if inner_products[j, i] >= 0.0:\n                    continue\n",
+    ["C18"])
+mut("c18_pcgrad_shared_order", "aggregation/pcgrad.py",
+    "        for i in range(dimension):\n            permutation = torch.randperm(dimension)",
+    "        permutation = torch.randperm(dimension)\n        for i in range(dimension):",
+    ["C18"], expect=0)  # the property allows whatever orders are drawn, including one shared order
+mut("c18_pcgrad_order_ignored", "aggregation/pcgrad.py",
+    "            for j in permutation:",
+    "            for j in sorted(permutation.tolist()):",
+    ["C18"])
+mut("c18_graddrop_leak_misweighted", "aggregation/graddrop.py",
+    "            vector += (leak[i] + (1 - leak[i]) * M_i) * matrix[i]",
+    "            vector += (leak[i] + (1 - leak[(i + 1) % len(matrix)]) * M_i) * matrix[i]",
+    ["C18"])
+mut("c18_graddrop_purity_without_abs", "aggregation/graddrop.py",
+    "P = 0.5 * (torch.ones_like(matrix[0]) + matrix.sum(dim=0) / matrix.abs().sum(dim=0))",
+    "P = 0.5 * (torch.ones_like(matrix[0]) + matrix.sum(dim=0) / matrix.abs().sum(dim=0)).clamp(0.25, 0.75)",
+    ["C18"])
+mut("c18_random_not_normalised", "aggregation/random.py",
+    "        weights = F.softmax(random_vector, dim=-1)",
+    "        weights = F.softmax(random_vector, dim=-1) * (1.0 + 0.01 * (matrix.shape[0] > 3))",
+    ["C18"])
+mut("c18_pcgrad_argsort_rand_refactor", "aggregation/pcgrad.py",
+    "            permutation = torch.randperm(dimension)",
+    "            permutation = torch.argsort(torch.rand(dimension))",
+    ["C18"], expect=0)  # property-preserving refactor: the seam sees rand instead of randperm
